@@ -1,5 +1,6 @@
 // target: src/sync.rs
 // labels: store.entry_put.head-is-max store.remove_replica.heads-of-ns-gone-others-kept store.remove_replica.other-heads-unchanged
+// tier: quick
 // bound: two authors, three keys, timestamps in {1,2,3}, every sequence of up to three inserts; then removal and re-creation of the
 // document. Checks C13 / C16: the reported head of each author is the greatest timestamp among the entries held, and no head
 // survives removing the document.
@@ -11,32 +12,38 @@ mod verif_rp_c13_heads {
     #[tokio::test]
     async fn heads_are_max_timestamp_of_held_entries() {
         let mut rng = rand::rng();
-        let authors = [Author::new(&mut rng), Author::new(&mut rng)];
         let ns = NamespaceSecret::new(&mut rng);
         let base = system_time_now() - 1_000_000;
+        let mut store = Store::memory();
+        drop(store.new_replica(ns.clone()).unwrap());
+        store.close_replica(ns.id());
         let keys: [&[u8]; 3] = [b"k1", b"k2", b"k"];
         let mut univ = vec![];
         for ai in 0..2usize { for k in 0..3usize { for ts in [1u64, 2, 3] { univ.push((ai, k, ts)); } } }
         for i in 0..univ.len() { for j in 0..univ.len() { for l in 0..univ.len() {
             let seq = [univ[i], univ[j], univ[l]];
-            let mut store = Store::memory();
-            let mut r = store.new_replica(ns.clone()).unwrap();
+            // fresh authors for every sequence (heads are per author), one shared store
+            let authors = [Author::new(&mut rng), Author::new(&mut rng)];
+            let mut r = store.open_replica(&ns.id()).unwrap();
             for (ai, k, ts) in seq {
                 let e = SignedEntry::from_parts(&ns, &authors[ai], keys[k], Record { hash: Hash::new(b"x"), len: 1, timestamp: base + ts });
                 let _ = r.insert_remote_entry(e, [1u8; 32], ContentStatus::Missing).await;
             }
             drop(r);
-            let held: Vec<(AuthorId, u64)> = store.get_many(ns.id(), Query::all().include_empty()).unwrap().map(|e| { let e = e.unwrap(); (e.author(), e.timestamp()) }).collect();
+            store.close_replica(ns.id());
+            // read back with point lookups over the key universe (no snapshot, so no commit per sequence)
+            let mut held: Vec<(AuthorId, u64)> = vec![];
+            for a in &authors { for k in keys { if let Some(e) = store.get_exact(ns.id(), a.id(), k, true).unwrap() { held.push((a.id(), e.timestamp())); } } }
             let heads: Vec<(AuthorId, u64)> = store.get_latest_for_each_author(ns.id()).unwrap().map(|x| { let (a, t, _k) = x.unwrap(); (a, t) }).collect();
             for a in &authors {
                 let want = held.iter().filter(|(x, _)| *x == a.id()).map(|(_, t)| *t).max();
                 let got = heads.iter().find(|(x, _)| *x == a.id()).map(|(_, t)| *t);
                 assert_eq!(got, want, "WITNESS after inserting (author,key,ts) {:?} the head of author {} is {:?}, entries held give {:?}", seq, if a.id() == authors[0].id() { 0 } else { 1 }, got.map(|t| t - base), want.map(|t| t - base));
             }
-            if (i + j + l) % 37 == 0 {
-                store.close_replica(ns.id());
+            if (i + j + l) % 97 == 0 {
                 store.remove_replica(&ns.id()).unwrap();
-                let _r = store.new_replica(ns.clone()).unwrap();
+                drop(store.new_replica(ns.clone()).unwrap());
+                store.close_replica(ns.id());
                 let n = store.get_latest_for_each_author(ns.id()).unwrap().count();
                 assert_eq!(n, 0, "WITNESS {} author heads survive removing and re-creating the document after {:?}", n, seq);
             }
